@@ -10,6 +10,7 @@ CONSTANTS Rpm,        \* rpm token -> [src |-> is a source package (arch src/nos
           Cats,       \* {"binary","debug","source"}
           OkForms,    \* name renderings that parse: {"canon","rpm","dir","dirrpm"}
           OkPaths,    \* relative non-empty path tokens
+          BadSigs,    \* signing keys that are no text (and not null)
           Lower(_)    \* signing key as stored: lower-cased, null stays null (tokens in the generators, real strings in traces)
 VARIABLES rpms, out
 vars == <<rpms, out>>
@@ -17,7 +18,7 @@ NoRpms == [k \in {} |-> 0]
 Init == rpms = NoRpms /\ out = "new"
 
 \* srpm: "none" or a source rpm token; sform: its rendering
-Refused(a, r, form, path, cat, srpm, sform) ==
+Refused(a, r, form, path, sig, cat, srpm, sform) ==
   \/ a \notin BinArch
   \/ cat \notin Cats
   \/ path \notin OkPaths
@@ -26,8 +27,9 @@ Refused(a, r, form, path, cat, srpm, sform) ==
   \/ (cat # "source" /\ srpm = "none")
   \/ ((cat = "source") # Rpm[r].src)
   \/ (srpm # "none" /\ sform \notin OkForms)
+  \/ sig \in BadSigs
 Add(v, a, r, form, path, sig, cat, srpm, sform) ==
-  IF Refused(a, r, form, path, cat, srpm, sform)
+  IF Refused(a, r, form, path, sig, cat, srpm, sform)
   THEN out' = "refused" /\ UNCHANGED rpms
   ELSE LET k == <<v, a, IF srpm = "none" THEN r ELSE srpm, r>>
        IN /\ rpms' = [x \in DOMAIN rpms \cup {k} |->
